@@ -283,6 +283,16 @@ def run(ctx, eng):
                'HEADERS for a stream that was reset are a stream error only '
                'because every local reset is recorded as one, and stays '
                'recorded under its own id when the stream is forgotten')
+    cm.include(ctx, eng, 'C27', {'OWN.fifo', 'TAB.cap', 'ARITH.evict'},
+               'how an old stream ended is remembered for the documented '
+               'MAX_CLOSED_STREAMS streams, oldest forgotten first')
+    cm.include(ctx, eng, 'C01',
+               lambda o: o.rule == 'ATOM.STR' and isinstance(o.desc, str) and
+               (o.desc.startswith('raise after allocation|explicit raise') or
+                o.desc.startswith('no raise after')),
+               'an open that the connection itself refuses (limit, gate) '
+               'must be refused before the id is taken: the next available '
+               'id is the smallest one never used')
     cm.include(ctx, eng, 'C22',
                lambda o: o.rule in ('ORD.gates', 'ORD.gate') and
                o.where.endswith('_receive_push_promise_frame'),
